@@ -238,6 +238,12 @@ HISTORY_POOL = [
     ("start: a:'t' c:`max(1, 7)` ;", 't'),
     ("start: a:'t' c:`len(a)` ;", 't'),
     ("start: len:'t' c:`{len}{len}` ;", 't'),
+    # assignment expressions write into the evaluation's own name space only; rules without named elements too
+    ("start: 't' `(tally := 7)` ;", 't'),
+    ("start: 't' `tally` ;", 't'),
+    ("start: 't' `(len := 7)` ;", 't'),
+    ("start: 't' `len('xyz')` ;", 't'),
+    ("start: a:'t' c:`[tally := 3, tally + 1]` ;", 't'),
 ]
 
 
@@ -451,7 +457,8 @@ def run(rc):
     rc.pmap(shard, names, chunk=max(1, len(names) // 32))
     import itertools
     n = len(HISTORY_POOL)
-    hists = [h for k in ((2, 3) if rc.tier == 'quick' else (2, 3, 4)) for h in itertools.product(range(n), repeat=k)]
+    hists = [h for k in ((2,) if rc.tier == 'quick' else (2, 3)) for h in itertools.product(range(n), repeat=k)]
+    hists += [h for h in itertools.product(range(6), repeat=3)]      # the first six (names bound by ASTs) also in triples
     rc.pmap(history_shard, hists)
     rc.coverage['histories'] = len(hists)
     install()
@@ -463,7 +470,7 @@ def run(rc):
                'f-string, comprehension, lambda, conditional, walrus, starred, subscript, key= callbacks, dunder attribute chains, str.format / '
                'format_map field access, % formatting, bare name), through is_eval_safe/safe_eval and as `constant` and ^`alert` in a real parse, '
                'under an audit hook with impure builtins replaced by recording stubs; plus a BFS of the non-dunder attribute graph (depth 2) from every '
-               'context value; plus generator/frame/code introspection routes through non-dunder attributes; plus every history of length 2-3 over a pool of 6 constant grammars (names bound by one parse must not be readable by the next), each in a pristine forked child; non-trivial = expression the sandbox did not reject')
+               'context value; plus generator/frame/code introspection routes through non-dunder attributes; plus every history of length 2 (thorough 3) over a pool of 11 constant grammars (triples over the first 6) (names bound by one parse must not be readable by the next), each in a pristine forked child; non-trivial = expression the sandbox did not reject')
     rc.coverage['object_results'] = sorted(map(str, rc.total.sets.get('object_results', ())))[:40]
     rc.assumptions += ['"pure builtin" is judged by an explicit list of impure names (mc/checks/c17.py:IMPURE) and by audit events',
                        'routes are a finite menu of syntactic forms, not all Python expressions']
